@@ -1118,5 +1118,131 @@ theorem render_gtail (cx : RCtx R) (cfg : ScanCfg R) (hg : cx.guardIndexRead = t
       exact this
 end
 
+/-! ### the reference interpreter on a tree; top level -/
+
+theorem loopArr_gen (sx : SpecCtx R) (sc : List Binding) (V : List Nat) (bodyT : List Tpl)
+    (Eo : Doc → List Nat → List Nat) (Nf : Doc → List Nat → Nat)
+    (hbody : ∀ x key f, Nf x key ≤ f → expandList sx f (⟨V, x, key⟩ :: sc) bodyT = Eo x key) :
+    ∀ (xs : List Doc) (fuel : Nat), xs.length + sumEnts Nf (xs.map (fun x => ([], x))) + 1 ≤ fuel →
+      loopArr sx fuel sc V bodyT xs = outEnts Eo (xs.map (fun x => ([], x))) := by
+  intro xs
+  induction xs with
+  | nil => intro fuel _; cases fuel <;> simp [loopArr, outEnts]
+  | cons x xs ih =>
+    intro fuel hf
+    obtain ⟨g, rfl⟩ : ∃ g, fuel = g + 1 := ⟨fuel - 1, by omega⟩
+    simp only [List.map_cons, sumEnts, List.length_cons] at hf
+    simp only [loopArr, List.map_cons, outEnts]
+    rw [ih g (by omega), hbody x [] g (by omega)]
+
+theorem loopObj_gen (sx : SpecCtx R) (sc : List Binding) (V : List Nat) (bodyT : List Tpl)
+    (Eo : Doc → List Nat → List Nat) (Nf : Doc → List Nat → Nat)
+    (hbody : ∀ x key f, Nf x key ≤ f → expandList sx f (⟨V, x, key⟩ :: sc) bodyT = Eo x key) :
+    ∀ (ms : List (List Nat × Doc)) (fuel : Nat), ms.length + sumEnts Nf ms + 1 ≤ fuel →
+      loopObj sx fuel sc V bodyT ms = outEnts Eo ms := by
+  intro ms
+  induction ms with
+  | nil => intro fuel _; cases fuel <;> simp [loopObj, outEnts]
+  | cons kx ms ih =>
+    obtain ⟨k, x⟩ := kx
+    intro fuel hf
+    obtain ⟨g, rfl⟩ : ∃ g, fuel = g + 1 := ⟨fuel - 1, by omega⟩
+    simp only [sumEnts, List.length_cons] at hf
+    simp only [loopObj, outEnts]
+    rw [ih g (by omega), hbody x k g (by omega)]
+
+mutual
+/-- reference fuel a tree needs under the bindings `sc` -/
+def eneedGT (cx : RCtx R) : List Binding → GT → Nat
+  | _, .segs l => l.length + 1
+  | sc, .ifc _ body tail => eneedGTs cx sc body + eneedGTail cx sc tail + 3
+  | sc, .loop S V body =>
+    (entsO (collS cx sc S)).length +
+      sumEnts (fun x key => eneedGTs cx (⟨V, x, key⟩ :: sc) body) (entsO (collS cx sc S)) + 3
+def eneedGTs (cx : RCtx R) : List Binding → GTs → Nat
+  | _, .nil => 1
+  | sc, .cons b r => eneedGT cx sc b + (GT.toTpls b).length + eneedGTs cx sc r
+def eneedGTail (cx : RCtx R) : List Binding → GTail → Nat
+  | _, .fin => 0
+  | sc, .els body => eneedGTs cx sc body + 1
+  | sc, .elif _ body tail => eneedGTs cx sc body + eneedGTail cx sc tail + 1
+end
+
+mutual
+theorem expand_gt (cx : RCtx R) : ∀ (b : GT) (sc : List Binding) (fuel : Nat), eneedGT cx sc b ≤ fuel →
+    expandList (specOf cx) fuel sc b.toTpls = expGT cx sc b
+  | .segs l, sc, fuel, hf => by
+    simp only [eneedGT] at hf
+    simp only [GT.toTpls, expGT]
+    exact expandList_body cx sc l fuel hf
+  | .ifc e body tail, sc, fuel, hf => by
+    simp only [eneedGT] at hf
+    obtain ⟨f, rfl⟩ : ∃ f, fuel = f + 3 := ⟨fuel - 3, by omega⟩
+    simp only [GT.toTpls, expandList, expandTpl, expandBranches, expandList_nil, List.append_nil, expGT, hitOfS]
+    rw [expand_gts cx body sc f (by omega), expand_gtail cx tail sc f (by omega)]
+    by_cases hh : isTrue (evalText (specOf cx) sc e 34) = some true <;> simp [hh]
+  | .loop S V body, sc, fuel, hf => by
+    simp only [eneedGT] at hf
+    obtain ⟨f, rfl⟩ : ∃ f, fuel = f + 2 := ⟨fuel - 2, by omega⟩
+    simp only [GT.toTpls, expandList, expandTpl, expandList_nil, List.append_nil, expGT,
+      show (specOf cx).root = cx.root from rfl]
+    have hcoll : (if S.isEmpty = true then some cx.root else (resolve cx.root sc S).1) = collS cx sc S := rfl
+    rw [hcoll]
+    have hb : ∀ x key g, eneedGTs cx (⟨V, x, key⟩ :: sc) body ≤ g →
+        expandList (specOf cx) g (⟨V, x, key⟩ :: sc) (gtsTpl body) = expGTs cx (⟨V, x, key⟩ :: sc) body :=
+      fun x key g hg => expand_gts cx body (⟨V, x, key⟩ :: sc) g hg
+    cases hres : collS cx sc S with
+    | none => simp [entsO, outEnts]
+    | some d =>
+      rw [hres] at hf
+      cases d with
+      | arr xs =>
+        simp only [entsO, entsOf] at hf ⊢
+        exact loopArr_gen (specOf cx) sc V (gtsTpl body) _ _ hb xs f (by simp only [List.length_map] at hf; omega)
+      | obj ms =>
+        simp only [entsO, entsOf] at hf ⊢
+        exact loopObj_gen (specOf cx) sc V (gtsTpl body) _ _ hb ms f (by omega)
+      | _ => simp [entsO, entsOf, outEnts]
+theorem expand_gts (cx : RCtx R) : ∀ (bs : GTs) (sc : List Binding) (fuel : Nat), eneedGTs cx sc bs ≤ fuel →
+    expandList (specOf cx) fuel sc (gtsTpl bs) = expGTs cx sc bs
+  | .nil, sc, fuel, _ => by simp [gtsTpl, expGTs, expandList_nil]
+  | .cons b r, sc, fuel, hf => by
+    simp only [eneedGTs] at hf
+    simp only [gtsTpl, expGTs]
+    rw [expandList_append, expand_gt cx b sc fuel (by omega), expand_gts cx r sc _ (by omega)]
+theorem expand_gtail (cx : RCtx R) : ∀ (t : GTail) (sc : List Binding) (fuel : Nat), eneedGTail cx sc t ≤ fuel →
+    expandBranches (specOf cx) fuel sc (tailBrG t) = expGTail cx sc t
+  | .fin, sc, fuel, _ => by simp [tailBrG, expGTail, expandBranches_nil]
+  | .els body, sc, fuel, hf => by
+    simp only [eneedGTail] at hf
+    obtain ⟨f, rfl⟩ : ∃ f, fuel = f + 1 := ⟨fuel - 1, by omega⟩
+    simp only [tailBrG, expandBranches, if_true, expGTail]
+    exact expand_gts cx body sc f (by omega)
+  | .elif e body tail, sc, fuel, hf => by
+    simp only [eneedGTail] at hf
+    obtain ⟨f, rfl⟩ : ∃ f, fuel = f + 1 := ⟨fuel - 1, by omega⟩
+    simp only [tailBrG, expandBranches, expGTail, hitOfS]
+    rw [expand_gts cx body sc f (by omega), expand_gtail cx tail sc f (by omega)]
+    by_cases hh : isTrue (evalText (specOf cx) sc e 34) = some true <;> simp [hh]
+end
+
+/-- rendering the implied tags of a tree prints the documented expansion -/
+theorem renderTop_gtree (cx : RCtx R) (cfg : ScanCfg R) (hg : cx.guardIndexRead = true)
+    (hrn : cfg.readNum = cx.readNum) (bs : GTs) (hc : cx.content = printGTs bs) (hn32 : cx.content.length < 4294967296)
+    (hok : bs.ok) (hpath : bs.pathV cfg.readNum []) (hcase : bs.caseV cfg.readNum) (fuel : Nat)
+    (hf : rneedGTs cx [] bs ≤ fuel) :
+    renderTop cx (tagsGTs cfg cx.content [] 0 0 bs) (fuel + rcostGTs bs) = .ok (expGTs cx [] bs) := by
+  have hr := render_gts cx cfg hg hrn hn32 bs [] 0 [] cx.content.length [] [] [] {} fuel (by simpa using hc) hok
+    (by simpa [vsOf] using hpath) hcase (by intro d hd; cases hd) (by intro e he; cases he) (by simp)
+    (by intro e he; cases he) (by simpa [scOf] using hf)
+  simp only [List.append_nil, List.nil_append, List.length_nil, Nat.zero_add, dOf, scOf, List.map_nil] at hr
+  obtain ⟨st', r1, r2, _⟩ := render_finishG cx (tagsGTs cfg cx.content [] 0 0 bs) [] (expGTs cx [] bs) 0 cx.content.length {}
+    fuel (rcostGTs bs) [] (by have := rneedGTs_pos cx [] bs; omega) (by
+      obtain ⟨B2, txt2, st2, h1, h2, h3, h4, h5⟩ := hr
+      exact ⟨B2, txt2, st2, by simpa using h1, by rw [h2, hc], by simpa using h3, h4, h5⟩)
+  simp only [renderTop, r1, bind, Except.bind, r2]
+  simp
+
+
 end
 end Qentem.Tmpl
